@@ -697,3 +697,355 @@ func checkRounding(c *Ctx, fn *FuncInfo, up bool) {
 		c.bad(name+"/shape", fn.Decl.Pos(), "expected the plain conversion and at least one nudged value for the result of %s", name)
 	}
 }
+
+func init() {
+	register(&Rule{ID: "R11.stepper-exactly-once", Props: []string{"C11"}, Floor: 1,
+		Text: "every helper of the collection package that steps a Cursor parameter (nextStep) steps it exactly once on every path on which the cursor is not nil — the per-item callbacks count one call of the helper as one step (R11.cursor-protocol), so a helper that skips the step on some path (a yield boundary, say) makes the reported cursor lag and the next page repeat entries",
+		Run:  ruleStepperExactlyOnce})
+	register(&Rule{ID: "R10.batch-not-aliased", Props: []string{"C10"}, Floor: 2,
+		Text: "a consumer that takes the pending batch of a guarded queue into a local (batch := q.items) and then releases the queue's lock leaves the queue with a slice that does not share the batch's backing array: the field is reset to nil or a fresh slice, never to q.items[:0] — producers append under the lock while the consumer is still reading the batch without it, and would overwrite messages not yet delivered (lost, and the overwriting message delivered twice, out of order)",
+		Run:  ruleBatchNotAliased})
+	register(&Rule{ID: "R12.multi-glob-unbounded", Props: []string{"C12"}, Floor: 2,
+		Text: "in multiGlobParse every pattern's limits pass the 'no literal prefix' test (both limits empty) before they are merged into the scan range, the first pattern included: every store of g.Limits into the result is dominated by the false edge of that test, and its true edge sets both result limits to the empty string and leaves the loop — otherwise ids that match an unbounded pattern but lie outside the range of a later pattern are never scanned",
+		Run:  ruleMultiGlobUnbounded})
+}
+
+func ruleStepperExactlyOnce(c *Ctx) {
+	stepping := steppingFuncs(c)
+	n := 0
+	for f := range stepping {
+		fn := c.FuncOf(f)
+		if fn == nil {
+			continue
+		}
+		info := fn.Info()
+		var cursorObj types.Object
+		for _, p := range fn.Decl.Type.Params.List {
+			for _, nm := range p.Names {
+				if isNamedType(info.ObjectOf(nm).Type(), colPath, "Cursor") {
+					cursorObj = info.ObjectOf(nm)
+				}
+			}
+		}
+		if cursorObj == nil {
+			continue
+		}
+		n++
+		fg := newFlowGraph(info, fn.Decl.Body)
+		stepsIn := func(nd ast.Node) int {
+			k := 0
+			inspectNoLit(nd, func(x ast.Node) bool {
+				call, ok := x.(*ast.CallExpr)
+				if !ok {
+					return true
+				}
+				if se, ok := ast.Unparen(call.Fun).(*ast.SelectorExpr); ok && se.Sel.Name == "Step" {
+					if id, ok := ast.Unparen(se.X).(*ast.Ident); ok && info.ObjectOf(id) == cursorObj {
+						k++
+					}
+				}
+				if g := callee(info, call); g != nil && stepping[g] && g != f {
+					for _, a := range call.Args {
+						if id, ok := ast.Unparen(a).(*ast.Ident); ok && info.ObjectOf(id) == cursorObj {
+							k++
+							break
+						}
+					}
+				}
+				return true
+			})
+			return k
+		}
+		// state: set of (steps ∈ {0,1,2+}, cursor known nil)
+		type st = uint8
+		enc := func(steps, isNil int) st { return 1 << uint(steps*2+isNil) }
+		in := map[int32]st{0: enc(0, 0)}
+		work := []*cfg.Block{fg.G.Blocks[0]}
+		problem := ""
+		var at token.Pos
+		checkExit := func(s st, pos token.Pos) {
+			for steps := 0; steps < 3; steps++ {
+				if s&enc(steps, 0) != 0 && steps != 1 && problem == "" {
+					problem, at = fmt.Sprintf("it can return after %d steps of a cursor that is not nil", steps), pos
+				}
+			}
+		}
+		for len(work) > 0 {
+			b := work[0]
+			work = work[1:]
+			s := in[b.Index]
+			for _, nd := range b.Nodes {
+				if k := stepsIn(nd); k > 0 {
+					var o st
+					for steps := 0; steps < 3; steps++ {
+						for isNil := 0; isNil < 2; isNil++ {
+							if s&enc(steps, isNil) != 0 {
+								ns := steps + k
+								if ns > 2 {
+									ns = 2
+								}
+								o |= enc(ns, isNil)
+							}
+						}
+					}
+					s = o
+				}
+				if _, ok := nd.(*ast.ReturnStmt); ok {
+					checkExit(s, nd.Pos())
+				}
+			}
+			if len(b.Succs) == 0 && (len(b.Nodes) == 0 || !isReturn(b.Nodes[len(b.Nodes)-1])) {
+				checkExit(s, fn.Decl.End())
+			}
+			for si, sc := range b.Succs {
+				o := s
+				if len(b.Succs) == 2 {
+					for k, v := range fg.identFacts(fg.edgeFacts(b, si)) {
+						if k.obj == cursorObj && k.isNil {
+							var o2 st
+							for steps := 0; steps < 3; steps++ {
+								if v { // cursor == nil on this edge
+									if s&(enc(steps, 0)|enc(steps, 1)) != 0 {
+										o2 |= enc(steps, 1)
+									}
+								} else if s&enc(steps, 0) != 0 { // cursor != nil: drop the nil worlds
+									o2 |= enc(steps, 0)
+								}
+							}
+							o = o2
+						}
+					}
+				}
+				if in[sc.Index]|o != in[sc.Index] {
+					in[sc.Index] |= o
+					work = append(work, sc)
+				}
+			}
+		}
+		key := funcName(f)
+		if problem == "" {
+			c.ok(key, fn.Decl.Pos(), true, "steps the cursor exactly once on every path on which it is not nil")
+		} else {
+			c.bad(key, at, "%s is used as 'one step per item' by the iterators, but %s: the cursor reported to the client no longer equals the number of items passed, and following it repeats or skips entries", f.Name(), problem)
+		}
+	}
+	c.stat("stepping_helpers", n)
+}
+
+func ruleBatchNotAliased(c *Ctx) {
+	pk := "internal/server"
+	// the guarded queue fields of the C10 specs: slices only
+	queues := map[*types.Var]string{}
+	for _, q := range [][2]string{{"subtarget", "msgs"}, {"pubQueue", "entries"}, {"liveBuffer", "details"}, {"Server", "lstack"}} {
+		if f := c.Field(pk, q[0], q[1]); f != nil {
+			if _, ok := f.Type().Underlying().(*types.Slice); ok {
+				queues[f] = q[0] + "." + q[1]
+			}
+		}
+	}
+	n := 0
+	for _, fn := range c.AllFuncs(pk) {
+		info := fn.Info()
+		ast.Inspect(fn.Decl.Body, func(x ast.Node) bool {
+			body, ok := x.(*ast.BlockStmt)
+			if !ok {
+				return true
+			}
+			// within one block: batch := Q   followed by   Q = <reset>
+			for i, st := range body.List {
+				as, ok := st.(*ast.AssignStmt)
+				if !ok || len(as.Lhs) != 1 || len(as.Rhs) != 1 {
+					continue
+				}
+				qf := selField(info, as.Rhs[0])
+				name, isQ := queues[qf]
+				if !isQ {
+					continue
+				}
+				if _, ok := as.Lhs[0].(*ast.Ident); !ok {
+					continue
+				}
+				// the reset that follows
+				for _, st2 := range body.List[i+1:] {
+					as2, ok := st2.(*ast.AssignStmt)
+					if !ok || len(as2.Lhs) != 1 || len(as2.Rhs) != 1 || selField(info, as2.Lhs[0]) != qf || !sameExpr(info, as2.Lhs[0], as.Rhs[0]) {
+						continue
+					}
+					n++
+					key := funcName(fn.Obj) + "→" + name
+					r := ast.Unparen(as2.Rhs[0])
+					fresh := false
+					if tv, ok := info.Types[r]; ok && tv.IsNil() {
+						fresh = true
+					}
+					if call, ok := r.(*ast.CallExpr); ok {
+						if id, ok := ast.Unparen(call.Fun).(*ast.Ident); ok && id.Name == "make" {
+							fresh = true
+						}
+					}
+					if _, ok := r.(*ast.CompositeLit); ok {
+						fresh = true
+					}
+					aliased := false
+					ast.Inspect(r, func(y ast.Node) bool {
+						if e, ok := y.(ast.Expr); ok && (selField(info, e) == qf || sameExpr(info, e, as.Lhs[0])) {
+							aliased = true
+						}
+						return true
+					})
+					switch {
+					case fresh && !aliased:
+						c.ok(key, as2.Pos(), true, "after the batch is taken the queue is reset to a slice with its own backing array")
+					case aliased:
+						c.bad(key, as2.Pos(), "after `%s` the queue is reset to %s, which shares the backing array of the batch: producers appending under the lock overwrite messages the consumer has not delivered yet", exprStr(as.Lhs[0])+" := "+exprStr(as.Rhs[0]), exprStr(r))
+					default:
+						c.und(key, as2.Pos(), "queue reset to %s: not recognised as fresh or aliased", exprStr(r))
+					}
+					break
+				}
+			}
+			return true
+		})
+	}
+	c.stat("batch_takes", n)
+}
+
+func ruleMultiGlobUnbounded(c *Ctx) {
+	fn := c.Func("internal/server", "", "multiGlobParse")
+	if fn == nil {
+		c.und("anchors", 0, "multiGlobParse not found")
+		return
+	}
+	info := fn.Info()
+	fg := newFlowGraph(info, fn.Decl.Body)
+	// g := glob.Parse(...)
+	var gObj types.Object
+	inspectNoLit(fn.Decl.Body, func(n ast.Node) bool {
+		if as, ok := n.(*ast.AssignStmt); ok && len(as.Lhs) == 1 && len(as.Rhs) == 1 {
+			if call, ok := ast.Unparen(as.Rhs[0]).(*ast.CallExpr); ok {
+				if f := callee(info, call); f != nil && isFunc(f, modPath+"/internal/glob", "Parse") {
+					if id, ok := as.Lhs[0].(*ast.Ident); ok {
+						gObj = info.ObjectOf(id)
+					}
+				}
+			}
+		}
+		return true
+	})
+	// the result variable: returned identifier
+	var resObj types.Object
+	for _, r := range fg.Returns() {
+		rs := r.Node.(*ast.ReturnStmt)
+		if len(rs.Results) == 1 {
+			if id, ok := ast.Unparen(rs.Results[0]).(*ast.Ident); ok {
+				resObj = info.ObjectOf(id)
+			}
+		}
+	}
+	if gObj == nil || resObj == nil {
+		c.und("anchors", fn.Decl.Pos(), "the parsed glob or the result variable was not found")
+		return
+	}
+	isGLimit := func(e ast.Expr, idx string) bool {
+		ix, ok := ast.Unparen(e).(*ast.IndexExpr)
+		if !ok {
+			return false
+		}
+		se, ok := ast.Unparen(ix.X).(*ast.SelectorExpr)
+		if !ok || se.Sel.Name != "Limits" {
+			return false
+		}
+		id, ok := ast.Unparen(se.X).(*ast.Ident)
+		if !ok || info.ObjectOf(id) != gObj {
+			return false
+		}
+		tv, ok := info.Types[ix.Index]
+		return ok && tv.Value != nil && (idx == "" || tv.Value.String() == idx)
+	}
+	isEmptyStr := func(e ast.Expr) bool {
+		s, ok := constString(info, e)
+		return ok && s == ""
+	}
+	isUnboundedTest := func(e ast.Expr) bool {
+		be, ok := ast.Unparen(e).(*ast.BinaryExpr)
+		if !ok || be.Op != token.LAND {
+			return false
+		}
+		half := func(x ast.Expr, idx string) bool {
+			b, ok := ast.Unparen(x).(*ast.BinaryExpr)
+			return ok && b.Op == token.EQL && isGLimit(b.X, idx) && isEmptyStr(b.Y)
+		}
+		return half(be.X, "0") && half(be.Y, "1") || half(be.X, "1") && half(be.Y, "0")
+	}
+	// (1) every store of g.Limits into the result is dominated by the false edge of the test
+	stores := fg.Find(func(n ast.Node) bool {
+		as, ok := n.(*ast.AssignStmt)
+		if !ok {
+			return false
+		}
+		toRes := false
+		for _, l := range as.Lhs {
+			if ix, ok := ast.Unparen(l).(*ast.IndexExpr); ok {
+				if id, ok := ast.Unparen(ix.X).(*ast.Ident); ok && info.ObjectOf(id) == resObj {
+					toRes = true
+				}
+			}
+		}
+		fromG := false
+		for _, r := range as.Rhs {
+			if isGLimit(r, "") {
+				fromG = true
+			}
+		}
+		return toRes && fromG
+	})
+	if len(stores) == 0 {
+		c.und("merge-sites", fn.Decl.Pos(), "no store of g.Limits into the result found")
+		return
+	}
+	for i, s := range stores {
+		key := fmt.Sprintf("merge%d-after-unbounded-test", i+1)
+		dom := false
+		for _, f := range fg.DominatingFacts(s) {
+			if f.Neg && f.Tag == nil && isUnboundedTest(f.E) {
+				dom = true
+			}
+		}
+		c.check(dom, key, s.Node.Pos(), "the limits are merged only after the pattern was found to have a literal prefix", "a pattern's limits are merged into the scan range without the 'no literal prefix' test having failed for it: an unbounded pattern (leading *, ?, [ or escape) then bounds the scan, and ids it matches outside that range are never visited")
+	}
+	// (2) the true edge resets both limits to "" and leaves the loop
+	okTrue := false
+	ast.Inspect(fn.Decl.Body, func(n ast.Node) bool {
+		ifs, ok := n.(*ast.IfStmt)
+		if !ok || !isUnboundedTest(ifs.Cond) {
+			return true
+		}
+		reset := map[string]bool{}
+		leaves := false
+		for _, st := range ifs.Body.List {
+			switch x := st.(type) {
+			case *ast.AssignStmt:
+				for i, l := range x.Lhs {
+					if ix, ok := ast.Unparen(l).(*ast.IndexExpr); ok && i < len(x.Rhs) {
+						if id, ok := ast.Unparen(ix.X).(*ast.Ident); ok && info.ObjectOf(id) == resObj && isEmptyStr(x.Rhs[i]) {
+							if tv, ok := info.Types[ix.Index]; ok && tv.Value != nil {
+								reset[tv.Value.String()] = true
+							}
+						}
+					}
+				}
+			case *ast.BranchStmt:
+				if x.Tok == token.BREAK {
+					leaves = true
+				}
+			case *ast.ReturnStmt:
+				leaves = true
+			}
+		}
+		if reset["0"] && reset["1"] && leaves {
+			okTrue = true
+		}
+		return true
+	})
+	c.check(okTrue, "unbounded-pattern-unbounds-range", fn.Decl.Pos(), "a pattern without literal prefix sets both limits to \"\" and ends the merge", "a pattern without a literal prefix does not reset the range to unbounded and end the merge")
+}
